@@ -15,6 +15,7 @@ import (
 	"encoding/json"
 	"fmt"
 	"os"
+	"slices"
 	"sort"
 	"sync/atomic"
 	"time"
@@ -55,6 +56,10 @@ type op struct {
 	Internal bool     `json:"internal"`
 	Allow    bool     `json:"allow"`
 	Commit   bool     `json:"committed"`
+	// Reuse: pass the very slice of the previous Enforce call again (callers check one
+	// object list for several subjects / before and after a change) when it was built
+	// for the same list of objects
+	Reuse bool `json:"reuse"`
 }
 
 type tcase struct {
@@ -91,6 +96,9 @@ type rps struct {
 
 type step struct {
 	Err string `json:"err"`
+	// Mutated: Enforce changed the caller's Objects slice; MutatedTo is what it reads now
+	Mutated   bool        `json:"mutated"`
+	MutatedTo [][2]string `json:"mutated_to"`
 	V   view   `json:"v"`
 	CV  view   `json:"cv"`
 	RP  []rps  `json:"rp"`
@@ -284,8 +292,11 @@ func runCase(c tcase) (res result) {
 			_ = tx.Close()
 		}
 	}()
+	var lastObjs, lastWant []ontology.ID
 	for _, o := range c.Ops {
 		var er error
+		mutated := false
+		var mutatedTo [][2]string
 		switch o.Op {
 		case "role":
 			er = rol.NewWriter(tx, o.Allow).Create(ctx, &role.Role{Key: ukey(o.K), Name: fmt.Sprint("r", o.K), Internal: o.Internal})
@@ -343,18 +354,31 @@ func runCase(c tcase) (res result) {
 			}
 		case "enforce":
 			req := access.Request{Subject: o.S.id(), Action: access.Action(o.Act)}
+			want := make([]ontology.ID, 0, len(o.Objs))
 			for _, ob := range o.Objs {
-				req.Objects = append(req.Objects, ob.id())
+				want = append(want, ob.id())
 			}
+			if o.Reuse && lastObjs != nil && slices.Equal(lastWant, want) {
+				req.Objects = lastObjs
+			} else {
+				req.Objects = slices.Clone(want)
+			}
+			lastObjs, lastWant = req.Objects, want
 			if o.Commit || tx == nil {
 				er = e.svc.Enforce(ctx, req)
 			} else {
 				er = e.svc.NewEnforcer(tx).Enforce(ctx, req)
 			}
+			if !slices.Equal(req.Objects, want) {
+				mutated = true
+				for _, x := range req.Objects {
+					mutatedTo = append(mutatedTo, [2]string{string(x.Type), x.Key})
+				}
+			}
 		default:
 			panic("unknown op " + o.Op)
 		}
-		st := step{Err: class(er), V: e.dump(tx), CV: e.dump(nil)}
+		st := step{Err: class(er), V: e.dump(tx), CV: e.dump(nil), Mutated: mutated, MutatedTo: mutatedTo}
 		for _, s := range c.Subjects {
 			ps, err := e.svc.RetrievePoliciesForSubject(ctx, s.id(), tx)
 			r := rps{E: class(err), K: []string{}}
